@@ -1131,9 +1131,13 @@ def mc_optmath(ctx):
     return run_mc(ctx, "MCOptMath", "MCOptMath_quick.cfg" if ctx.quick() else "MCOptMath_thorough.cfg", workers=12, timeout=3000, heap="8g", coverage=False)
 
 
-def mcoptobj_cfg(maxops, emit, broken="none", ids="{1, 2}", maps="{1}"):
-    return ("SPECIFICATION Spec\nCONSTANTS\n  Ids = %s\n  Maps = %s\n  MaxOps = %d\n  Emit = %s\n  Broken = \"%s\"\nINVARIANT Inv\nCONSTRAINT EmitScripts\n"
-            "VIEW View\nCHECK_DEADLOCK FALSE\n" % (ids, maps, maxops, "TRUE" if emit else "FALSE", broken))
+OPT_ALPHABET = ("new", "init_empty", "destroy", "get_dim", "init_guess", "init", "flags", "smap", "tmap", "evaluate", "copy", "assign", "map_new", "map_mutate")
+
+
+def mcoptobj_cfg(maxops, emit, broken="none", ids="{1, 2}", maps="{1}", alphabet=OPT_ALPHABET, problems="{1, 2, 3}"):
+    return ("SPECIFICATION Spec\nCONSTANTS\n  Ids = %s\n  Maps = %s\n  MaxOps = %d\n  Emit = %s\n  Broken = \"%s\"\n  Alphabet = {%s}\n  ProblemIds = %s\n"
+            "INVARIANT Inv\nCONSTRAINT EmitScripts\nVIEW View\nCHECK_DEADLOCK FALSE\n"
+            % (ids, maps, maxops, "TRUE" if emit else "FALSE", broken, ", ".join('"%s"' % a for a in alphabet), problems))
 
 
 def mc_optobj(ctx):
@@ -1327,10 +1331,10 @@ def opt_eval_cmd(r, oid, st, sm, tm, ws):
     return {"op": "evaluate", "obj": oid, "x": gen.hv(x), "ws": ws, "costs": gen.cost_params(gen.Rng(5)), "overload": 3}
 
 
-def opt_history_execs(ctx, r, nsample, families, exact=True, maxops=3, ids="{1, 2}", maps="{1}", simulate=None):
+def opt_history_execs(ctx, r, nsample, families, exact=True, maxops=3, ids="{1, 2}", maps="{1}", simulate=None, alphabet=OPT_ALPHABET, problems="{1, 2, 3}"):
     from vcheck import tlc_generate
-    scripts = tlc_generate(ctx, "MCOptObj", mcoptobj_cfg(maxops, True, ids=ids, maps=maps),
-                           "optobj" + ids.replace(" ", "").replace(",", "_").strip("{}") + "m" + str(len(maps)) + "d" + str(maxops) + ("sim" if simulate else ""),
+    scripts = tlc_generate(ctx, "MCOptObj", mcoptobj_cfg(maxops, True, ids=ids, maps=maps, alphabet=alphabet, problems=problems),
+                           "optobj" + ids.replace(" ", "").replace(",", "_").strip("{}") + "m" + str(len(maps)) + "d" + str(maxops) + "a" + str(len(alphabet)) + ("sim" if simulate else ""),
                            workers=1, timeout=900, heap="8g", simulate=simulate)
     if simulate:      # long random walks: keep them all
         execs = []
@@ -1349,9 +1353,13 @@ def opt_history_execs(ctx, r, nsample, families, exact=True, maxops=3, ids="{1, 
         a setter that changes the layout AFTER a reader has built the cache, or a copy/assignment between two optimizers whose
         caches are in different states (one read since its last setter, the other not)"""
         clean, usable = {}, {}      # obj -> cache built since the last setter? / holds a valid problem?
+        umap = {}                   # obj -> (user time map bound?, user spatial map bound?)
         sig = ""
         for a in h:
             o = a.get("obj")
+            if a["op"] in ("set_tmap", "set_smap"):
+                t, sp = umap.get(o, (False, False))
+                umap[o] = (a["map"] != 0, sp) if a["op"] == "set_tmap" else (t, a["map"] != 0)
             if a["op"] == "set_init":
                 usable[o] = a["v"] in (1, 2)
             elif a["op"] == "set_init_empty":
@@ -1367,8 +1375,11 @@ def opt_history_execs(ctx, r, nsample, families, exact=True, maxops=3, ids="{1, 
                 d, sr = a["dst"], a["src"]
                 if d != sr and usable.get(sr, False) and clean.get(d, False) != clean.get(sr, False):
                     sig = sig or "%s:dst-%s:src-%s" % (a["op"], "clean" if clean.get(d, False) else "dirty", "clean" if clean.get(sr, False) else "dirty")
+                if d != sr and usable.get(sr, False) and umap.get(d, (False, False)) != umap.get(sr, (False, False)):
+                    sig = sig or "%s:dstmaps-%s:srcmaps-%s" % (a["op"], umap.get(d, (False, False)), umap.get(sr, (False, False)))
                 clean[d] = clean.get(sr, False)
                 usable[d] = usable.get(sr, False)
+                umap[d] = umap.get(sr, (False, False))
             elif a["op"] == "opt_destroy":
                 clean.pop(o, None)
                 usable.pop(o, None)
@@ -1428,7 +1439,11 @@ def plan_C15(ctx):
     fams = (("sq", "lift"), ("sq", "id"), ("quad", "lift"), ("sq", "lift"))
     hexecs = opt_history_execs(ctx, r, 400 if ctx.quick() else 12000, fams, maxops=4 if not ctx.quick() else 3)
     # two optimizers, no user maps, up to 7 calls: long enough for "configure both, use one, assign the other onto it, use it"
-    hexecs += opt_history_execs(ctx, r, 1500 if ctx.quick() else 30000, fams, maxops=6, maps="{}")
+    hexecs += opt_history_execs(ctx, r, 900 if ctx.quick() else 30000, fams, maxops=6, maps="{}")
+    # two optimizers and a user map, calls restricted to construction / initialisation / set maps / copy / assign / destroy, up to 7
+    # calls: "bind one to user maps, assign the other (default maps) onto it, use it" and the like
+    hexecs += opt_history_execs(ctx, r, 1200 if ctx.quick() else 7000, fams, maxops=6, problems="{1, 2}",
+                                alphabet=("new", "init", "smap", "tmap", "copy", "assign", "map_new", "destroy"))
     if not ctx.quick():     # long random walks of 12 calls over two optimizers and a user map (TLC -simulate)
         hexecs += opt_history_execs(ctx, r, 0, fams, maxops=12, simulate=(600, 12))
     # spline-object copies
